@@ -327,6 +327,7 @@ func TestCheck(t *testing.T) {
 		}
 	})
 	uncheckedPhase(run)
+	duringRegistration(run)
 	run.Assume("a DELETE notification for a key that is not installed carries a nil entry and is ignored by the fold")
 	run.Finish("seeded histories (8-48 ops, as C01, with held operations and flushes) on RIBs built in 4 configurations (all NIs before hook registration; VRFs via AddNetworkInstance after it; server.New with WithVRFs; server.New then Server.AddNetworkInstance); the post-change fold is compared with the model after every step, every resolved-entry snapshot is re-hashed at the end. Non-trivial = history leaves entries", 100, false)
 }
